@@ -162,7 +162,7 @@ def gen_cases(rng, tier):
     pseed = 0
     for gi, (g, style) in enumerate(graphs):
         gt = gen.graph_tokens(g)
-        small = 2 * sum(w for _, _, w in g[1]) < 2 ** 31 - 1
+        small = gen.int_domain_ok(g)
         for ai, alg in enumerate(ALGS):
             ty = "I" if (gi % 3 == ai % 3) and small else "D"
             scale = 0 if ty == "I" else rng.choice([0, 0, -3, 5])
